@@ -19,7 +19,7 @@ var (
 		{Name: "comment", Pattern: `[#;][^\n]*`},
 		{Name: "whitespace", Pattern: `\s+`},
 	})
-	iniParser = participle.MustBuild[iniINI](
+	iniParser = mustBuild[iniINI](
 		participle.Lexer(iniLexer),
 		participle.Unquote("String"),
 		participle.Union[iniValue](iniString{}, iniNumber{}),
